@@ -116,9 +116,10 @@ def check_cube(denses, commons, E_shape, acc, case):
             cube = ccube(dims, interacting_shape=tuple(E_shape) if mode == "explicit" else None)
             shape = tuple(int(s) for s in cube.interacting_shape)
             if mode == "inferred":
-                need = [int(d.max()) + 1 if d.size else 0 for d in denses]
+                # the common value is one of the dimension's categories even when no row holds it
+                need = [max(int(d.max()) if d.size else 0, int(c)) + 1 for d, c in zip(denses, commons)]
                 if any(s < n for s, n in zip(shape, need)):
-                    acc.violation("count:inferred-shape", dict(case, mode=mode), "inferred %r does not cover data needing %r" % (shape, need))
+                    acc.violation("count:inferred-shape", dict(case, mode=mode), "inferred %r does not cover the data and common values, which need %r" % (shape, need))
                     continue
             r1 = cube.count()
             r2 = ccube(dims, interacting_shape=shape).count(return_missing_as=(0, False))
